@@ -12,6 +12,12 @@ CHECKS = {
  "C03": ("proptest-generated histories of public Response operations (stateful: op vector + interpreter) executed in a real handler; model-based oracle (history → expected header map/body) + independent HTTP response parser + capacity monitor (hook H3, declared-size accessor)",
          "Exploration of operation histories (0–40 operations, 10 % of 250–400) × all statuses × GET/HEAD through the real router and serializer. Right level: the defects of this property live in histories (remove→set, >255 sets) that examples do not reach; a model of the header map is cheap and exact.",
          "values without CR/LF/NUL; framing headers never set by hand; 1xx/304 only self-consistency; frozen clock via hook H4; H3 turns the silent overrun into a panic (with hooks off it is undefined behaviour)", "DESIGN.md §7 C03"),
+ "C04": ("proptest-generated application trees with tracing fangs (real tuple Fangs impls: Fang wrappers, FangActions, mixes, early-answering) and requests; oracle = onion trace computed from the configuration tree, compared as an exact event sequence",
+         "Exploration of configurations × requests: tens of thousands of nested applications with 0–8 fangs each and local fangs, each probed by up to 20 requests (hits, misses inside/outside mounts, mount paths, all methods, early markers). Right level: order/scope failures depend on tree shapes (compression, method trees) that only generated configurations reach.",
+         "mount prefixes exclusive as the quantifier says (by construction); which handler is hit comes from C01's reference matcher; requests touching a node that the router's single-child compression merged across a mount point are attributed to the recorded known finding (classified from the configuration only)", "DESIGN.md §7 C04"),
+ "C14": ("proptest-generated CORS policies × application trees × simple/preflight requests; oracle = reference CORS model derived from the statement, fed with the policy and the flattened route table",
+         "Exploration of policies × configurations × requests through the real CORS fang, automatic OPTIONS handlers, router and serializer. Right level: the property fails through interactions of registration shape (methods split over items/mounts) with preflights, which need generated configurations.",
+         "policy on the root application; HEAD/OPTIONS as requested method accept either outcome; Vary unchecked", "DESIGN.md §7 C14"),
  "C20": ("exhaustive enumeration of days/seconds/small integers + proptest-generated timestamps and 64-bit integers against an independent civil-from-days / std formatting oracle",
          "Exploration; the sub-space 'first second of every day up to 9999-12-31, every second of day on ~35 days, every n < 10^6' is enumerated completely, the remaining inputs are sampled. Right level: the functions are pure, cheap, and have a trivially independent oracle, so near-total input coverage is affordable.",
          "std formatting and the oracle's civil-from-days (cross-checked against chrono and httpdate each run) are trusted", "DESIGN.md §7 C20"),
